@@ -500,6 +500,182 @@ def race_burst(ctx, lines):
         ctx.not_shown("race build of the driver died on the burst cases (rc=%s): %s" % (rc, err[-400:]))
 
 
+# ------------------------------------------------------------------ the proxy side: client_ip on the relay URL
+
+RELAY_ARGS = ["-test.run", "^TestVerifC18RelayDriver$"]
+
+
+def build_relay_driver():
+    """test binary of proxy/lib with ONLY this area's in-package file injected (own overlay map): another area's
+    in-package file that stops compiling after a refactor cannot take this view down with it"""
+    import json
+    vlib.go_prepare()
+    rel = os.path.join("proxy", "lib", "zz_verif_c18relay_test.go")
+    ov = os.path.join(vlib.GOB, "overlay_c18relay.json")
+    repl = {os.path.join(vlib.REPO, rel): os.path.join(vlib.OVERLAY_SRC, rel)}
+    # the shared overlay map also carries the zz_verif/wire package and friends: keep everything outside proxy/lib
+    shared = json.load(open(os.path.join(vlib.GOB, "overlay.json")))["Replace"]
+    for k, v in shared.items():
+        if os.sep + os.path.join("proxy", "lib") + os.sep not in k:
+            repl[k] = v
+    data = json.dumps({"Replace": repl}, indent=1, sort_keys=True)
+    if not os.path.exists(ov) or open(ov).read() != data:
+        open(ov, "w").write(data)
+    out = os.path.join(vlib.GOB, "bin", "proxylib_c18relay.test")
+    os.makedirs(os.path.dirname(out), exist_ok=True)
+    rc, o, e = vlib.sh(["go", "test", "-c", "-vet=off", "-tags", "verif", "-modfile=" + os.path.join(vlib.GOB, "go.mod"), "-overlay", ov,
+                        "-ldflags=-checklinkname=0", "-o", out, "./proxy/lib"], cwd=vlib.REPO, env=vlib.GOENV, timeout=900)
+    if rc != 0:
+        raise vlib.GoBuildError("go test -c ./proxy/lib (in-package C18 relay driver) failed:\n%s" % (o + e)[-3000:])
+    return out
+
+
+def relay_addr_pool(rng, n):
+    """n distinct client addresses in the text form Go prints them (net.IP.String()), none of them local/unspecified"""
+    pool = set()
+    while len(pool) < n:
+        c = rng.random()
+        if c < 0.6:
+            a = "%d.%d.%d.%d" % (rng.choice([8, 23, 45, 93, 151, 192, 198, 203]), rng.randrange(256), rng.randrange(256), rng.randrange(1, 255))
+            ip = ipaddress.ip_address(a)
+            if ip.is_private and not a.startswith(("192.0.2.", "198.51.100.", "203.0.113.")):
+                continue
+            if a.startswith(("192.168.", "100.", "169.254.")):
+                continue
+        else:
+            ip = ipaddress.IPv6Address((0x20010db8 << 96) | rng.getrandbits(rng.choice([16, 48, 64, 96])) | (rng.choice([0, 1, 0xab]) << 64))
+            a = ip.compressed
+        pool.add(a)
+    return sorted(pool)
+
+
+def relay_line(mode, dq, sess):
+    return "%s relay %s %s %s" % (AREA, mode, dq or "-", ",".join("%s;%s" % (r, ("a" + a) if a else "n") for r, a in sess))
+
+
+def gen_relay(ctx):
+    """histories of clients on ONE proxy: default relay (the broker assigned none) and broker-assigned relay URLs (repeated
+    and distinct), clients with and without a known remote address, one after the other and all at the same moment"""
+    rng = ctx.rng
+    lines, kinds = [], []
+    def add(mode, dq, sess, kind):
+        lines.append(relay_line(mode, dq, sess)); kinds.append(kind)
+    A = relay_addr_pool(rng, 12)
+    # exhaustive short sequential histories over: default/assigned x known/unknown address
+    alpha = [("d", A[0]), ("d", None), ("u1", A[1]), ("u1", None), ("d", A[2]), ("u2+x=1", None)]
+    L = 3 if ctx.tier == "quick" else 4
+    for k in range(1, L + 1):
+        for seq in itertools.product(alpha, repeat=k):
+            add("s", "", list(seq), "relay-seq-exhaustive")
+    n = 60 if ctx.tier == "quick" else 600
+    for i in range(n):
+        pool = relay_addr_pool(rng, 8)
+        dq = rng.choice(["", "", "", "x=1", "a=b+c=d", "client_ip=9.9.9.9", "client_ip=9.9.9.9+z=1"])
+        urls = ["u%d" % j + rng.choice(["", "", "+x=1", "+k=v+x=2", "+client_ip=7.7.7.7"]) for j in range(1, 4)]
+        sess = []
+        for _ in range(rng.choice([2, 3, 5, 8, 12])):
+            r = "d" if rng.random() < 0.6 else rng.choice(urls)
+            a = rng.choice(pool) if rng.random() < 0.6 else None
+            sess.append((r, a))
+        add("s", dq, sess, "relay-seq-random")
+    # all at the same moment: every known address is distinct, so a swapped address shows in the multiset
+    m = 16 if ctx.tier == "quick" else 160
+    for i in range(m):
+        pool = relay_addr_pool(rng, 10)
+        rng.shuffle(pool)
+        dq = rng.choice(["", "", "x=1"])
+        sess = []
+        for _ in range(rng.choice([2, 3, 4, 6, 8])):
+            r = "d" if rng.random() < 0.7 else "u%d" % rng.randrange(1, 3)
+            a = pool.pop() if rng.random() < 0.7 else None
+            sess.append((r, a))
+        add("c", dq, sess, "relay-concurrent")
+    return lines, kinds
+
+
+def relay_parse(line):
+    a = line.split(" ")
+    mode, dq = a[2], a[3]
+    def q(t):
+        return [] if t in ("-", "") else [tuple(p.split("=", 1)) for p in t.split("+")]
+    sess = []
+    for t in a[4].split(","):
+        r, ad = t.split(";")
+        f = r.split("+", 1)
+        base_q = q(dq) if f[0] == "d" else q(f[1] if len(f) == 2 else "")
+        sess.append(dict(relay=f[0], q=base_q, addr=None if ad == "n" else ad[1:]))
+    return mode, sess
+
+
+def relay_expected(s):
+    ips = [s["addr"]] if s["addr"] is not None else [v for k, v in s["q"] if k == "client_ip"]
+    others = len([1 for k, v in s["q"] if k != "client_ip"])
+    return "%s|%s|%d" % (s["relay"], "+".join(ips) or "-", others)
+
+
+def analyse_relay(line, impl):
+    if impl.startswith("!"):
+        return ("proxy-relay-driver", "proxy relay driver: " + impl[:200])
+    mode, sess = relay_parse(line)
+    outs = impl.split(",")
+    if len(outs) != len(sess):
+        return ("proxy-relay-driver", "malformed answer " + impl[:200])
+    addrs = [s["addr"] for s in sess if s["addr"] is not None]
+    want = [relay_expected(s) for s in sess]
+
+    def judge(i, got, exp, own):
+        # got, exp: "<relay>|<ips>|<others>"
+        try:
+            g_rel, g_ip, g_oth = got.split("|")
+        except ValueError:
+            return ("proxy-relay-no-dial", "session %s was not dialled (%s)" % (i, got))
+        e_rel, e_ip, e_oth = exp.split("|")
+        foreign = [x for x in g_ip.split("+") if x != "-" and x in addrs and x != own]
+        if foreign:
+            return ("proxy-client-ip-from-other-session",
+                    "the relay URL dialled for session %s (relay %s, remote address %s) carries client_ip=%s: the remote address of ANOTHER "
+                    "session of this proxy (the server will credit the session with it)" % (i, e_rel, own or "unknown", foreign[0]))
+        if g_ip != e_ip:
+            return ("proxy-client-ip-wrong", "the relay URL dialled for session %s (remote address %s) carries client_ip=%s, expected %s" % (
+                i, own or "unknown", g_ip, e_ip))
+        if g_rel != e_rel:
+            return ("proxy-dial-wrong-relay", "session %s was assigned relay %s but %s was dialled" % (i, e_rel, g_rel))
+        if g_oth != e_oth:
+            return ("proxy-relay-params-changed", "session %s: the relay URL's own parameters did not go through unchanged (%s, expected %s)" % (i, got, exp))
+        return None
+    if mode == "s":
+        for i, (g, e, s) in enumerate(zip(outs, want, sess)):
+            r = judge(i, g, e, s["addr"])
+            if r:
+                return r
+        return None
+    # concurrent: as multisets
+    if sorted(outs) == sorted(want):
+        return None
+    rest = list(want)
+    extra = []
+    for g in outs:
+        if g in rest:
+            rest.remove(g)
+        else:
+            extra.append(g)
+    g = extra[0]
+    # the session this dial should have been: same relay, among the unmatched expectations
+    cand = [e for e in rest if e.split("|")[0] == g.split("|")[0]] or rest
+    own = cand[0].split("|")[1] if cand else "-"
+    return judge("(one of %d served at the same moment)" % len(sess), g, cand[0] if cand else "-|-|0", None if own == "-" else own)
+
+
+def prop_relay(line, impl, model):
+    r = analyse_relay(line, impl)
+    return r[1] if r else None
+
+
+def key_relay(line, impl, model):
+    r = analyse_relay(line, impl)
+    return r[0] if r else "proxy-relay-other"
+
+
 def run(ctx):
     os.environ["VERIF_DRIVER"] = "1"
     exe = vlib.go_test_build(PKG)
@@ -529,6 +705,23 @@ def run(ctx):
     ctx.correspond(exe, lines, kinds, label="listener-burst", prop=prop, key_of=key_of, impl_args=IMPL_ARGS, crosscheck=4)
     step = max(1, len(lines) // (4 if ctx.tier == "quick" else 20))
     race_burst(ctx, lines[::step])
+    # ---- the proxy side of the chain: the client_ip the proxy puts on the relay URL
+    ctx.trusted.append("harness/overlay/proxy/lib/zz_verif_c18relay_test.go: clients are webRTCConn values over a PeerConnection whose remote "
+                       "description is a real pion offer with the case's candidate lines; the handler is called as OnDataChannel calls it; "
+                       "websocket.DefaultDialer's Proxy hook records the URL and aborts the dial; net/url is a library boundary "
+                       "(Model/ProxyClientIP.v: opaque base + list of query pairs)")
+    try:
+        rexe = build_relay_driver()
+    except vlib.GoBuildError as e:
+        ctx.not_shown("harness: the in-package proxy relay driver no longer builds against the repo (the proxy side of C18 was not "
+                      "exercised): " + str(e)[-800:])
+        return
+    os.environ["VERIF_DRIVER"] = "c18relay"
+    try:
+        lines, kinds = gen_relay(ctx)
+        ctx.correspond(rexe, lines, kinds, label="proxy-relay-client-ip", prop=prop_relay, key_of=key_relay, impl_args=RELAY_ARGS, crosscheck=8)
+    finally:
+        os.environ["VERIF_DRIVER"] = "1"
 
 
 def replay(ctx, doc):
@@ -540,6 +733,15 @@ def replay(ctx, doc):
         if not case:
             continue
         m = vlib.run_model([case])[0]
+        if case.split(" ")[1] == "relay":
+            os.environ["VERIF_DRIVER"] = "c18relay"
+            rc, r, err = vlib.run_impl(build_relay_driver(), [case], args=RELAY_ARGS)
+            os.environ["VERIF_DRIVER"] = "1"
+            r = r[0] if r else "!died"
+            p = prop_relay(case, r, m)
+            print("case: %s\n model: %s\n impl:  %s\n property: %s" % (case[:300], m[:300], r[:300], p or "holds"))
+            bad += 1 if p else 0
+            continue
         rc, r, err = vlib.run_impl(exe, [case], args=IMPL_ARGS)
         r = r[0] if r else "!died"
         p = prop(case, r, m)
